@@ -36,7 +36,7 @@ import pyfacts
 import sched
 
 ID = 'C18'
-LEAN_MODULES = ['Yaql.Props.C18', 'Yaql.Props.C18Objs', 'Yaql.Props.C18Gen']
+LEAN_MODULES = ['Yaql.Props.C18', 'Yaql.Props.C18Objs', 'Yaql.Props.C18Gen', 'Yaql.Props.C18Eval']
 REQUIRED_THEOREMS = [
     'Yaql.Props.C18.isolation', 'Yaql.Props.C18.isolation_exact', 'Yaql.Props.C18.interleaving',
     'Yaql.Props.C18.isolation_benign_cache', 'Yaql.Props.C18.oblivious_of_denotation',
@@ -44,6 +44,8 @@ REQUIRED_THEOREMS = [
     'Yaql.Props.C18.objs_isolated', 'Yaql.Props.C18.objs_results', 'Yaql.Props.C18.lazy_objects_private',
     'Yaql.Props.C18.partial_publication_interferes', 'Yaql.Props.C18.parked_state_interferes',
     'Yaql.Props.C18.shared_lazy_object_interferes',
+    'Yaql.Props.C18.refMachine_readOnly', 'Yaql.Props.C18.eval_model_isolated',
+    'Yaql.Props.C18.eval_model_returns_framed',
     'Yaql.Props.C18Gen.no_shared_writes', 'Yaql.Props.C18Gen.reachable_sites_modelled',
     'Yaql.Props.C18Gen.table_nonvacuous']
 TRUSTED = ['harness/sched.py (real threads blocked at scheduling points, released one at a time)',
@@ -52,8 +54,10 @@ TRUSTED = ['harness/sched.py (real threads blocked at scheduling points, release
            'internals (dict, sorted, itertools, re, datetime) touch no yaql state']
 ASSUMPTIONS = ['granularity of interleaving = one function dispatch / iterator step / key hash (the property\'s own '
                'quantifier); preemption between arbitrary bytecodes is covered only by the free-running stress',
-               'Eval steps write only cells of their own (frame hypothesis of C18.eval_writes_private): stated over an '
-               'abstract evaluator, to be instantiated with Model/Eval.lean (C04.frame) after the merge']
+               'C18.eval_writes_private (evaluators over a mutable cell store, the shape of contexts.py) keeps its frame '
+               'hypothesis explicit: the reference evaluator of C04 is purely functional (contexts are immutable frame '
+               'chains), so it is instantiated as a Sched machine directly (C18Eval.eval_model_isolated, one step = one '
+               'statement) and C04.frame supplies what a returned context can contain']
 
 
 def generate():
@@ -1869,8 +1873,9 @@ LEVEL_TEXT = ('Lean 4 theorems over a generic interleaving semantics (shared com
               'allowed class. The real code runs under a deterministic thread scheduler at dispatch / iterator-step / '
               'key-hash granularity (exhaustive, <=3 preemptions, random) and at line granularity (seeded) against the sequential baseline, the shared '
               'context snapshot, the Lean machine under the same trace, and free-running under a 1 us switch interval.')
-LEVEL_NOTE = ('partial: (1) eval_writes_private is over an abstract evaluator with the frame hypothesis explicit; its '
-              'instantiation with Model/Eval.lean waits for the merge of C04; (2) the atomic step is one dispatch / iterator '
+LEVEL_NOTE = ('partial: (1) the core evaluator enters at statement granularity (C18Eval.eval_model_isolated over C04\'s purely '
+              'functional Model/Eval, plus C04.frame for returned contexts); the store-based eval_writes_private keeps its '
+              'frame hypothesis explicit; dispatch-level interleaving of the evaluator is explored on the real code; (2) the atomic step is one dispatch / iterator '
               'step / key hash, preemption between arbitrary bytecodes is only stress-tested; (3) the classification rules '
               'of the write-site walker and the three hand-justified rows are trusted; C extension internals are trusted.')
 TECHNIQUE = ('Lean 4 proof (schedule induction over a generic machine, denotation + measure for benign caches) + per-run '
